@@ -233,10 +233,12 @@ impl Check for C01 {
         let (framing, items) = gen_items(&mut wl, tier, idx, true);
         let nmsg = items.iter().filter(|i| matches!(i, Item::Msg(_))).count() as u32;
         let mut k = rng.sub("knobs");
-        let start_index = match k.below(4) {
+        let start_index = match k.below(5) {
             0 => 0,
             1 => 1,
             2 => k.u32() % (u32::MAX - nmsg - 1),
+            // the last message gets exactly the largest index
+            3 => u32::MAX - nmsg.saturating_sub(1),
             _ => u32::MAX - nmsg - 1 - k.below(3) as u32,
         };
         let mut rs = rng.sub("readers");
@@ -265,8 +267,11 @@ impl Check for C01 {
                 _ => None,
             })
             .collect();
-        if (c.start_index as u64) + (specs.len() as u64) >= u32::MAX as u64 {
-            return Ok(());
+        if (c.start_index as u64) + (specs.len() as u64) > u32::MAX as u64 + 1 {
+            return Ok(()); // the numbering would not be representable
+        }
+        if !specs.is_empty() && (c.start_index as u64) + (specs.len() as u64) == u32::MAX as u64 + 1 {
+            ctx.probe("last_index_is_u32_max");
         }
         let bounds: Arc<Vec<usize>> = Arc::new(img.msgs.iter().map(|(o, l)| o + l).collect());
         let bytes = Arc::new(img.bytes);
